@@ -452,7 +452,7 @@ impl<'a> PG<'a> {
     c
   }
   fn endless_src(&self, s: &Src) -> bool {
-    matches!(s, Src::Interval(_) | Src::IntervalUs(_) | Src::IntervalAt(..))
+    matches!(s, Src::Interval(_) | Src::IntervalUs(_) | Src::IntervalAt(..) | Src::IntervalAtUs(..))
   }
   fn inner_table(&mut self, depth_left: usize) -> Vec<Chain> {
     let n = 1 + self.rng.below(3);
